@@ -4,7 +4,8 @@ package decision
 
 // C36 harness: drives a real decision Engine with wantlist scripts (TLC-generated in phase G,
 // random in phase T) and records one NDJSON event per spec action of spec/BitswapEngine
-// (Reset, Recv, Add, Remove, Env, Idle).  Every event carries the projected observable state
+// (Reset, Recv, Add, Remove, Env, Sent, Idle; Env = nextEnvelope returned, Sent = MessageSent + Envelope.Sent, with
+// whatever the script placed in between).  Every event carries the projected observable state
 // (WantlistForPeer and the pending topics of the peer task queue); the trace is validated by
 // TraceBitswapEngine, which decides what the engine should have done.
 
@@ -46,7 +47,7 @@ type c36Cfg struct {
 }
 
 type c36Step struct {
-	Op   string  `json:"op"` // Recv | Add | Remove | Drain
+	Op   string  `json:"op"` // Recv | Add | Remove | Drain | Hold | Release
 	P    int     `json:"p"`
 	Full bool    `json:"full"`
 	Es   [][]any `json:"es"` // raw entries [c, prio, wt, cancel, sdh]
@@ -91,6 +92,7 @@ type c36Sys struct {
 	dead   bool // an engine call panicked
 	nextCh <-chan *Envelope // outbox mode: requested envelope channel (worker may be parked on it)
 	parked bool
+	held   *Envelope // direct mode: envelope taken by a "Hold" step, MessageSent/Sent not yet called
 }
 
 func c36In(set []int, x int) bool {
@@ -373,7 +375,82 @@ func (s *c36Sys) next() *Envelope {
 	}
 }
 
+// envItems projects an envelope: sorted block / HAVE / DONT_HAVE CIDs.
+func (s *c36Sys) envItems(env *Envelope) (bl, hv, dh []int, detail string) {
+	bl, hv, dh = []int{}, []int{}, []int{}
+	for _, b := range env.Message.Blocks() {
+		c := s.num[b.Cid()]
+		if c == 0 || string(b.RawData()) != string(s.data[c-1]) {
+			detail = "block with wrong bytes/unknown cid"
+		}
+		bl = append(bl, c)
+	}
+	for _, bp := range env.Message.BlockPresences() {
+		if bp.Type == pb.Message_Have {
+			hv = append(hv, s.num[bp.Cid])
+		} else {
+			dh = append(dh, s.num[bp.Cid])
+		}
+	}
+	sort.Ints(bl)
+	sort.Ints(hv)
+	sort.Ints(dh)
+	return
+}
+
+func (s *c36Sys) peerInv(p int) [][]any {
+	if p >= 1 && p <= s.np {
+		return s.allInv()[p-1]
+	}
+	return [][]any{}
+}
+
+// took logs the envelope nextEnvelope has just returned (spec action NextEnv): its tasks are active now, the
+// want-list is untouched until MessageSent.
+func (s *c36Sys) took(env *Envelope) {
+	p := s.peerNum(env.Peer)
+	bl, hv, dh, detail := s.envItems(env)
+	vEmit(M{"ev": "Env", "p": p, "blocks": bl, "haves": hv, "dhs": dh, "wl": s.wl(p), "inv": s.peerInv(p), "pend": s.pend(p),
+		"detail": detail, "wants": len(env.Message.Wantlist())})
+}
+
+// sent does what the server does once the envelope is on the wire: MessageSent, Sent (spec action MsgSent).
+func (s *c36Sys) sent(env *Envelope) {
+	p := s.peerNum(env.Peer)
+	s.e.MessageSent(env.Peer, env.Message)
+	env.Sent()
+	vEmit(M{"ev": "Sent", "p": p, "wl": s.wl(p), "inv": s.peerInv(p), "pend": s.pend(p)})
+}
+
+// hold takes the next envelope and keeps it: the following script steps fall into the window between
+// nextEnvelope and MessageSent.  Direct mode only (with the outbox worker running, the worker would pop again).
+func (s *c36Sys) hold() {
+	if s.outbox {
+		return
+	}
+	s.release()
+	if s.e.peerRequestQueue.Stats().NumPending == 0 {
+		return
+	}
+	env := s.next()
+	if env == nil {
+		vEmit(M{"ev": "Idle", "pend": s.allPend()})
+		return
+	}
+	s.took(env)
+	s.held = env
+}
+
+func (s *c36Sys) release() {
+	if s.held != nil {
+		env := s.held
+		s.held = nil
+		s.sent(env)
+	}
+}
+
 func (s *c36Sys) drain() {
+	s.release()
 	for {
 		if s.nextCh == nil && s.e.peerRequestQueue.Stats().NumPending == 0 && s.idle() {
 			break
@@ -382,35 +459,8 @@ func (s *c36Sys) drain() {
 		if env == nil {
 			break
 		}
-		p := s.peerNum(env.Peer)
-		bl, hv, dh := []int{}, []int{}, []int{}
-		detail := ""
-		for _, b := range env.Message.Blocks() {
-			c := s.num[b.Cid()]
-			if c == 0 || string(b.RawData()) != string(s.data[c-1]) {
-				detail = "block with wrong bytes/unknown cid"
-			}
-			bl = append(bl, c)
-		}
-		for _, bp := range env.Message.BlockPresences() {
-			if bp.Type == pb.Message_Have {
-				hv = append(hv, s.num[bp.Cid])
-			} else {
-				dh = append(dh, s.num[bp.Cid])
-			}
-		}
-		sort.Ints(bl)
-		sort.Ints(hv)
-		sort.Ints(dh)
-		// what the server does with an envelope: MessageSent, send, Sent
-		s.e.MessageSent(env.Peer, env.Message)
-		env.Sent()
-		inv := [][]any{}
-		if p >= 1 && p <= s.np {
-			inv = s.allInv()[p-1]
-		}
-		vEmit(M{"ev": "Env", "p": p, "blocks": bl, "haves": hv, "dhs": dh, "wl": s.wl(p), "inv": inv, "pend": s.pend(p),
-			"detail": detail, "wants": len(env.Message.Wantlist())})
+		s.took(env)
+		s.sent(env)
 	}
 	vEmit(M{"ev": "Idle", "pend": s.allPend()})
 }
@@ -429,6 +479,12 @@ func (s *c36Sys) run(b c36Beh, forceDrain bool) {
 			s.remove(st.C)
 		case "Drain":
 			s.drain()
+			continue
+		case "Hold":
+			s.hold()
+			continue
+		case "Release":
+			s.release()
 			continue
 		default:
 			panic("c36: op " + st.Op)
@@ -533,6 +589,7 @@ func c36Record(t *testing.T) {
 		}
 		maxPrio := 1 + rng.Intn(7)
 		b := c36Beh{Cfg: cfg, NP: np, NC: nc, Bs0: bs0}
+		holdFor := 0
 		for msgs := 0; msgs < 40; {
 			switch x := rng.Intn(20); {
 			case x < 12:
@@ -559,8 +616,18 @@ func c36Record(t *testing.T) {
 				b.Steps = append(b.Steps, c36Step{Op: "Add", C: 1 + rng.Intn(used)})
 			case x < 17:
 				b.Steps = append(b.Steps, c36Step{Op: "Remove", C: 1 + rng.Intn(used)})
+			case x == 17 && holdFor == 0:
+				// an envelope in flight: the next 1-3 steps fall between nextEnvelope and MessageSent
+				b.Steps = append(b.Steps, c36Step{Op: "Hold"})
+				holdFor = 1 + rng.Intn(3)
+				continue
 			default:
 				b.Steps = append(b.Steps, c36Step{Op: "Drain"})
+			}
+			if holdFor > 0 {
+				if holdFor--; holdFor == 0 {
+					b.Steps = append(b.Steps, c36Step{Op: "Release"})
+				}
 			}
 		}
 		c36Reset(b, r)
